@@ -17,7 +17,20 @@
 (*     The gas sub-sections belong to the graph under every form             *)
 (*     (ChemFormAttachesGases: a class of the form provides addGas), and     *)
 (*     every [Fitting] entry reaches the optimizer (fit flag, mode, bounds). *)
-EXTENDS FactoryOps
+(*  C  the PRESENCE of sections (inputfile.rst: "Not all of these headers    *)
+(*     are required in an input file.  Some will generate default profiles   *)
+(*     when not present"): every subset of [Temperature] [Pressure]          *)
+(*     [Chemistry] [Planet] [Star] left out x every subset of the [Model]    *)
+(*     keys that describe the model's OWN default pressure profile           *)
+(*     (nlayers, atm_min_pressure, atm_max_pressure) x [Instrument] written  *)
+(*     or not.  For a section that is absent the parser hands the model      *)
+(*     constructor NOTHING (the constructor default, "defaults otherwise"),  *)
+(*     so that the model builds its own default from its own keys; for a     *)
+(*     section that is present, the component of the selector's class.       *)
+(*     Prebuild = TRUE is the (refuted) reading "the parser pre-builds the   *)
+(*     selector's default component for an absent section".                  *)
+EXTENDS FactoryOps, FactorySect
+CONSTANT Prebuild      \* FALSE
 VARIABLE asm
 
 DocSels(kind) == UNION {e.sels : e \in {x \in Builtin : x.kind = kind}}
@@ -57,11 +70,31 @@ FitEntries(kindf, gsel) ==
                                [param |-> "planet_radius", fit |-> FALSE, mode |-> "linear", bounds |-> <<"0.5", "3">>, lo |-> <<1, 2>>, hi |-> <<3, 1>>]>>
       [] OTHER            -> <<>>
 
+\* ------------------------------------------------------- presence of sections (family C)
+\* (OptSections, SlotOf, LayerKeys, ModelArgOf, LayerSrcOf: FactorySect)
+LayerRaw  == [nlayers |-> "12", atm_min_pressure |-> "0.5", atm_max_pressure |-> "1e5"]
+InstRaw   == [SNR |-> "12", num_observations |-> "3"]
+SectionClass(a, s) ==
+    CASE s = "Temperature" -> One("temperature", "value", a.temp)
+      [] s = "Pressure"    -> One("pressure", "value", a.press)
+      [] s = "Chemistry"   -> ChemBases(a.chem)[Len(ChemBases(a.chem))]
+      [] s = "Planet"      -> One("planet", "value", "simple")
+      [] OTHER             -> One("star", "value", "blackbody")
+\* what the model constructor receives for the section's keyword: "" = nothing (its default, None)
+ModelArg(a, s) == ModelArgOf(Prebuild, a.absent, s, SectionClass(a, s))
+\* where each number of the model's pressure grid comes from
+LayerSrc(a, k) == LayerSrcOf(ModelArg(a, "Pressure"), a.mkeys, k)
+
 FamilyA == [temp : Temps, gas1 : Gases, gas2 : Gases, model : Models, press : Press, chem : {PlainForm(s) : s \in Chems},
-            contribs : ContribSets, binning : Binnings, fit : {"none"}]
+            contribs : ContribSets, binning : Binnings, fit : {"none"}, absent : {{}}, mkeys : {{}}, inst : {"none"}]
 FamilyB == [temp : Temps, gas1 : Gases, gas2 : Gases, model : Models, press : {"simple"}, chem : ChemForms,
-            contribs : {<<"Absorption">>, <<"Absorption", "Rayleigh">>}, binning : {"none"}, fit : {"radius", "gas"}]
-Init == asm \in FamilyA \cup FamilyB
+            contribs : {<<"Absorption">>, <<"Absorption", "Rayleigh">>}, binning : {"none"}, fit : {"radius", "gas"},
+            absent : {{}}, mkeys : {{}}, inst : {"none"}]
+FamilyC == {a \in [temp : {"isothermal"}, gas1 : {"constant"}, gas2 : {"constant"}, model : Models, press : {"simple"},
+                    chem : {PlainForm("taurex")}, contribs : {<<"Absorption", "Rayleigh">>}, binning : {"none"}, fit : {"none"},
+                    absent : SUBSET OptSections, mkeys : SUBSET LayerKeys, inst : {"none", "snr"}] :
+                a.inst = "snr" => a.mkeys = {}}
+Init == asm \in FamilyA \cup FamilyB \cup FamilyC
 Next == UNCHANGED asm
 Spec == Init /\ [][Next]_asm
 
@@ -82,13 +115,32 @@ FittingWellFormed ==
         /\ Transform(Li(e.bounds)) = [t |-> "floatlist", v |-> <<e.lo, e.hi>>]
         /\ e.lo[1] * e.hi[2] < e.hi[1] * e.lo[2]
 
+\* ------------------------------------------------------- presence of sections
+\* a section that is not written leaves the model constructor's keyword at its default ("defaults otherwise")
+AbsentSectionIsDefaultArgument == \A s \in asm.absent : ModelArg(asm, s) = ""
+\* a section that is written reaches the model as the component of its selector's class
+PresentSectionReachesModel ==
+    \A s \in OptSections \ asm.absent :
+        \/ s = "Temperature" /\ ("temperature:" \o asm.temp) \in Waived
+        \/ ModelArg(asm, s) # ""
+\* without a [Pressure] section the layer keys of [Model] are the model's pressure grid
+ModelLayerKeysEffective ==
+    ("Pressure" \in asm.absent) => \A k \in asm.mkeys : LayerSrc(asm, k) = "model-key"
+LayerKeysTyped == \A k \in LayerKeys : Transform(Sc(LayerRaw[k])).t = "float"
+
 Emit == PrintT(<<"ASM", ToJson([temp |-> asm.temp, gas1 |-> asm.gas1, gas2 |-> asm.gas2, model |-> asm.model,
                                  press |-> asm.press, chem |-> WrittenChem(asm.chem), chemform |-> asm.chem.form,
                                  contribs |-> asm.contribs, binning |-> asm.binning,
                                  fit |-> asm.fit, fitting |-> FitEntries(asm.fit, asm.gas1),
+                                 absent |-> asm.absent, inst |-> asm.inst,
+                                 instkeys |-> IF asm.inst = "snr" THEN [k \in DOMAIN InstRaw |-> [raw |-> InstRaw[k], typed |-> Transform(Sc(InstRaw[k]))]] ELSE <<>>,
+                                 mkeys |-> [k \in asm.mkeys |-> [raw |-> LayerRaw[k], typed |-> Transform(Sc(LayerRaw[k]))]],
+                                 args |-> [s \in OptSections |-> [kw |-> SlotOf[s], cls |-> ModelArg(asm, s)]],
+                                 layers |-> [k \in LayerKeys |-> LayerSrc(asm, k)],
                                  cls |-> [temp |-> One("temperature", "value", asm.temp),
                                           gas1 |-> One("gas", "value", asm.gas1), gas2 |-> One("gas", "value", asm.gas2),
                                           model |-> One("model", "value", asm.model), press |-> One("pressure", "value", asm.press),
+                                          inst |-> IF asm.inst = "none" THEN "" ELSE One("instrument", "value", asm.inst),
                                           chem |-> ChemBases(asm.chem)[Len(ChemBases(asm.chem))],
                                           chembases |-> ChemBases(asm.chem),
                                           contribs |-> [i \in 1..Len(asm.contribs) |-> One("contribution", "subsection", asm.contribs[i])]]])>>)
